@@ -111,6 +111,7 @@ func init() {
 		Rule: "expressions: every tree <= 3 leaves over 7 terms (family-overlapping ids, two references differing only in case) (two renderings coincide semantically; full parenthesisation used); allowed lists: every list of length <= k with repetition over 9 entries (all permutations and duplications of every set of <= k entries); " +
 			"two more spaces over the 5-7 ways of writing one license (x, x+, x-only, x-or-later, x WITH e, x+ WITH e, x WITH f) as terms and as entries; " +
 			"for every family of the version table that has such ids: its first, second and last version with up to 4 listed ids outside every family that sort between its versions, lists up to 3; " +
+			"every id of the version table and 8 ids / references outside it as a one-term expression satisfied by its own spelling, with any ONE table id (plain or '+') added before or after it; " +
 			"oracles: lists with the same set of entries give the same verdict; replacing an entry by any re-spelling (case, spaces, parentheses, -only, exception case) keeps it; A subset B => (sat(A) => sat(B)) for all enumerated sets; " +
 			"state = (expression, list), one transition each; non-trivial = lists with a repeated entry or more than one ordering (length >= 2) whose verdict is 'true' for at least one and whose expression has >= 2 distinct terms",
 		Assumptions: []string{"differential: no reference model", "X-only as a re-spelling of X relies on C08's equivalence"},
@@ -162,7 +163,72 @@ func c07Run(c *Ctx) {
 		}
 	}
 	c.Bound("families_with_in_between_ids", nfam)
+	c07AddOne(c)
 	c07Long(c)
+}
+
+// c07AddOne: a term that its own spelling satisfies stays satisfied when ANY one id of the version table
+// (plain or with '+') is added to the list, before or after it. Terms: every table id and a few ids and
+// references outside every family. (Entries of two families that collide under some private numbering of
+// table positions, or a '+' entry at table position (0,0) next to an id that is in no family, show here.)
+func c07AddOne(c *Ctx) {
+	pos := tablePos()
+	var table []string
+	for _, fam := range T().Ranges {
+		for _, st := range fam {
+			for _, id := range st {
+				if p := pos[id]; p.Count == 1 && !strings.HasSuffix(id, "+") && Valid1(id) == 1 {
+					table = append(table, id)
+				}
+			}
+		}
+	}
+	terms := append(append([]string{}, table...), "MIT", "ISC", "Zlib", "0BSD", "LicenseRef-a", "DocumentRef-d:LicenseRef-a", "MIT WITH Bison-exception-2.2", "MIT+")
+	c.Bound("add_one_table_entry", map[string]any{"terms": len(terms), "added_entries": 2 * len(table), "placements": "before / after"})
+	for ti, t := range terms {
+		if !c.Mine(int64(ti)) {
+			continue
+		}
+		if c.Expired() {
+			return
+		}
+		if !c.Begin("add one entry to [" + t + "]") {
+			continue
+		}
+		base := Sat(t, []string{t})
+		if base.Panic != "" || base.IsErr || !base.Ok {
+			c.Inc("skipped_term_not_self_satisfied")
+			continue
+		}
+		for _, a := range table {
+			for _, e := range []string{a, a + "+"} {
+				if e == a+"+" && Valid1(e) != 1 {
+					continue
+				}
+				for _, l := range [][]string{{t, e}, {e, t}} {
+					cs := c07Case{Kind: "monotone", Expr: t, A: []string{t}, B: l}
+					r := Sat(t, l)
+					c.Inc("states")
+					c.Inc("transitions")
+					c.Inc("evaluations")
+					if r.Panic != "" {
+						c.Inc("skipped_panic")
+						continue
+					}
+					c.Inc("traces")
+					c.Inc("nontrivial")
+					c.Outcome("add-one")
+					if r.IsErr || !r.Ok {
+						msg, _ := c07Check(cs)
+						if msg == "" {
+							msg = fmt.Sprintf("not monotone: Satisfies(%q, [%q]) = true but with the larger list %q it is false (not reproduced on re-check)", t, t, l)
+						}
+						c.Report(Violation{Kind: "c07.case", Class: "not-monotone:add-one-table-entry", Key: fmt.Sprintf("add-one|%s|%q", t, l), Msg: msg, Size: len(t) + len(e), Case: mustJSON(cs)})
+					}
+				}
+			}
+		}
+	}
 }
 
 // the same id with and without '+' side by side (a de-duplication that forgets the '+' merges them)
